@@ -43,34 +43,31 @@ class Mutex {
     //! 请求资源，注意：只能是协程调用
     //! 不建议直接使用，优先使用 Mutex::Locker 替代
     bool lock() {
-        if (!hold_token_.isNull()) {      //! 如果没有资源，则等待
-            if (hold_token_.equal(sch_.getToken())) //! 如果就是自己占用的，就直接返回
-                return true;
+        if (hold_token_.equal(sch_.getToken())) //! 如果就是自己占用的，就直接返回
+            return true;
 
+        while (!hold_token_.isNull()) {     //! 如果没有资源，则等待
+            //! 每次进入等待前都要重新登记：被唤醒后锁可能已被别的协程拿走
             wait_tokens_.push(sch_.getToken());
-            do {
-                sch_.wait();
-                if (sch_.isCanceled())
-                    return false;
-            } while (!hold_token_.isNull());
+            sch_.wait();
+            if (sch_.isCanceled())
+                return false;
         }
 
         hold_token_ = sch_.getToken();
         return true;
     }
 
-    //! 释放资源，注意：也只能是协程调用
-    //! 不建议直接使用，优先使用 Mutex::Locker 替代
     void unlock() {
         if (!sch_.getToken().equal(hold_token_))
             return;
 
         hold_token_.reset();
-
-        if (!wait_tokens_.empty()) {
-            auto t = wait_tokens_.front();
+        //! 唤醒所有等待者，由它们自己重新竞争；只唤醒一个的话，
+        //! 锁在它运行之前又被别人拿走并释放时，其余等待者会在锁空闲的情况下永远挂起
+        while (!wait_tokens_.empty()) {
+            sch_.resume(wait_tokens_.front());
             wait_tokens_.pop();
-            sch_.resume(t);
         }
     }
 
